@@ -77,7 +77,7 @@ const L21_SNAP_DONE: Shape = L21S.with_commit(1).with_persisted(2).with_peers(&[
 // check-quorum: peers inactive / one active
 const L21_CQ_LOST: Shape = L21S.with_flags(true, false, false).with_commit(1).with_persisted(2).with_peers(&[PeerShape::probe(2, 2).matched(1).inactive(), PeerShape::probe(3, 2).matched(0).inactive()]);
 const L21_CQ_OK: Shape = L21S.with_flags(true, false, false).with_commit(1).with_persisted(2).with_peers(&[PeerShape::probe(2, 2).matched(1), PeerShape::probe(3, 2).matched(0).inactive()]);
-const L21_CQ_LOST2: Shape = L21S.with_flags(true, false, false).with_commit(1).with_persisted(2).with_peers(&[PeerShape::snapshot(2, 2).matched(1).pending_snapshot(2).inactive(), PeerShape::replicate(3, 4, 1).matched(2).inactive()]);
+const L21_CQ_LOST2: Shape = L21S.with_flags(true, false, false).with_commit(1).with_persisted(2).with_peers(&[PeerShape::snapshot(2, 2).matched(1).pending_snapshot(2).requested().inactive(), PeerShape::replicate(3, 4, 1).matched(2).inactive()]);
 const L21_BATCH: Shape = L21S.with_commit(0).with_persisted(2).with_peers(&[PeerShape::probe(2, 4).matched(0).paused(), PeerShape::probe(3, 2).matched(0).paused()]);
 const L21_LEARNER: Shape = L21S.with_conf(&[1, 2, 3], &[], &[4], &[], false).with_commit(1).with_persisted(2).with_peers(&[PeerShape::replicate(2, 4, 0).matched(3), PeerShape::probe(3, 2).matched(0).paused(), PeerShape::probe(4, 2).matched(0).paused()]);
 const L21_BOTH: Shape = L21S.with_commit(1).with_persisted(2).with_peers(&[PeerShape::probe(2, 3).matched(1), PeerShape::probe(3, 3).matched(2).paused()]);
@@ -295,7 +295,7 @@ harnesses! {
     { voteresp_dup_flip, "C02,C03", quick, unwind = 8,
       "candidate whose peer 2 already rejected receives a (duplicate) grant from 2 -> the first answer stands, no leader",
       |s| c02::voteresp_step(s, &CAND3_DUP, 2, false, false, 5) }
-    { voteresp_wrong_kind, "C02,C16,C03,C01", quick, unwind = 8,
+    { voteresp_wrong_kind, "C02,C16,C03,C01,C05", quick, unwind = 8,
       "candidate receives a stale pre-vote grant -> ignored",
       |s| c02::voteresp_step(s, &CAND3, 2, true, false, 5) }
     { voteresp_stale_term, "C02,C03", quick, unwind = 8,
@@ -417,7 +417,7 @@ harnesses! {
     { propose_normal_then_cc, "C09,C02", quick, unwind = 8,
       "leader: one proposal batching [normal entry, V1 membership change] -> pending_conf_index must be the index of the membership entry, not of the batch start",
       |s| c04::propose_step(s, &L21_PROP, &[0, 1], 1, 1, false, u64::MAX, 0) }
-    { propose_cc_two, "C09", quick, unwind = 8,
+    { propose_cc_two, "C09,C01,C02", quick, unwind = 8,
       "leader: two membership entries in one proposal -> the second is replaced",
       |s| c04::propose_step(s, &L21_PROP, &[1, 3], 0, 1, false, u64::MAX, 0) }
     { propose_cc_leave_nonjoint, "C09", quick, unwind = 8,
@@ -657,7 +657,7 @@ harnesses! {
     { timeoutnow_learner, "C17,C09", quick, unwind = 8,
       "a learner (not a voter of its own configuration) ignores MsgTimeoutNow and election timeouts",
       |s| c09::hup_step(s, &F30.with_applied(3).with_commit(3).with_conf(&[2, 3], &[], &[1], &[], false), 1) }
-    { leader_tick_cq_lost_states, "C10,C04,C16", quick, unwind = 8,
+    { leader_tick_cq_lost_states, "C10,C04,C16,C15", quick, unwind = 8,
       "leader with check_quorum whose peers are in Snapshot and Replicate state and inactive: the tick that reaches election_timeout makes it step down, and every progress is reset (acknowledgements forgotten, back to Probe, windows emptied)",
       |s| c04::leader_tick(s, &L21_CQ_LOST2, 9, 0, false) }
     { appresp_batch_overlap, "C05,C13", quick, unwind = 8,
@@ -673,10 +673,10 @@ harnesses! {
     { hup_f30_pending_last_only, "C09,C03,C02", quick, unwind = 8,
       "MsgHup on a follower with exactly one committed-but-unapplied entry (applied=2, commit=3) which is a ConfChangeV2: must not campaign",
       |s| c09::hup_step(s, &F30.with_applied(2).with_commit(3).with_etypes(&[0, 0, 2]), 0) }
-    { hup_f30_pending_paged_mid, "C09,C03", quick, unwind = 8,
+    { hup_f30_pending_paged_mid, "C09,C03,C02", quick, unwind = 8,
       "MsgHup with the scan of unapplied entries paged one entry at a time (max_committed_size_per_ready = 0; log terms [1,2,3] and term 5 concrete so that entry sizes are), applied=0, commit=3, the ConfChange is the middle entry: a later page without membership change must not clear the hit",
       |s| c09::hup_step_paged(s, &F30.with_terms(&[1, 2, 3]).with_term(5).with_applied(0).with_commit(3).with_etypes(&[0, 1, 0]), 0, Some(0)) }
-    { hup_f30_pending_paged_last, "C09,C03", quick, unwind = 8,
+    { hup_f30_pending_paged_last, "C09,C03,C02", quick, unwind = 8,
       "same paging, the ConfChangeV2 is in the last page: the scan must not stop after a first page without membership change",
       |s| c09::hup_step_paged(s, &F30.with_terms(&[1, 2, 3]).with_term(5).with_applied(0).with_commit(3).with_etypes(&[0, 0, 2]), 0, Some(0)) }
     { timeoutnow_paged_last, "C09,C17", quick, unwind = 8,
@@ -1171,7 +1171,7 @@ harnesses! {
     { progress_snapshot, "C13,C10,C15", quick, unwind = 8,
       "Progress in Snapshot state with symbolic pending_snapshot: caught up exactly when the snapshot index is acknowledged; probing resumes after it",
       |s| c13::progress_ops(s, 2, 0) }
-    { uncommitted_two, "C13", quick, unwind = 8,
+    { uncommitted_two, "C13,C10", quick, unwind = 8,
       "uncommitted-size accounting with symbolic limit / outstanding size / leadership tail index, proposal of two entries (2 and 1 bytes)",
       |s| c13::uncommitted(s, &F30, &[2, 1]) }
     { uncommitted_empty, "C13", quick, unwind = 8,
@@ -1205,7 +1205,7 @@ harnesses! {
     { log_cursors_compacted, "C14,C04,C01", thorough, unwind = 8,
       "same on a compacted log (snapshot point 7)",
       |s| c14::cursors(s, &LG21B) }
-    { log_slice_limit_boundary, "C14,C13,C05", quick, unwind = 8,
+    { log_slice_limit_boundary, "C14,C13,C05,C01", quick, unwind = 8,
       "RaftLog::slice over the stable/unstable boundary with size limits at every prefix-sum boundary (-1, exact, +1), 0 and NO_LIMIT: entries 1..=4 (2 stable + 2 unstable), the second stable entry carries a 40-byte payload -> result is always the maximal contiguous prefix within the limit, at least one entry",
       |s| c14::slice_limit(s, &LG22, &[0, 40, 0, 0], 1, 5) }
     { log_slice_limit_unstable, "C14,C13", quick, unwind = 8,
@@ -1236,6 +1236,9 @@ harnesses! {
     { mem_append_prefix_rewrite, "C19", quick, unwind = 8,
       "MemStorage: append 1..=3, then append of the single entry 2 (possibly identical to the stored one): a truncating overwrite - the log now ends at 2",
       |s| c19::script(s, &[c19::append(1, 3), c19::append(2, 1)], 1, 3) }
+    { mem_append_identical_prefix, "C19", quick, unwind = 8,
+      "MemStorage: append 1..=3 (all of term 2, concrete), then re-append entry 2 exactly as stored: still a truncating overwrite - the log ends at 2, index 3 is no longer available",
+      |s| c19::script(s, &[c19::append_t(1, 3, 2), c19::append_t(2, 1, 2)], 1, 3) }
     { mem_stale_snapshot, "C19", quick, unwind = 8,
       "MemStorage: append 1..=3, compact(3), apply_snapshot(1) (below first_index): SnapshotOutOfDate, nothing changes",
       |s| c19::script(s, &[c19::append(1, 3), c19::compact(3), c19::snap(1)], 3, 4) }
